@@ -82,7 +82,7 @@ func (c *Ctx) classifyDecoder(f *ssa.Function, depth int) (string, string) {
 			switch o.Kind {
 			case "param":
 				class, why = "ALIAS", "result shares the backing array of the input ("+short(cv.String(), 50)+")"
-			case "make", "const", "string-copy":
+			case "make", "const", "nil", "string-copy":
 			default:
 				return "UNKNOWN", "storage origin " + o.Kind + " " + o.Desc
 			}
@@ -156,7 +156,7 @@ func runC06(c *Ctx) {
 				for _, o := range origins {
 					descs = append(descs, o.Kind+":"+o.Desc)
 					switch o.Kind {
-					case "make", "string-copy":
+					case "make", "string-copy", "nil":
 					case "pool", "global":
 						bad = append(bad, o.Kind+" "+o.Desc)
 					default:
@@ -204,7 +204,7 @@ func runC06(c *Ctx) {
 			key := fname(f) + ":store-Message.Header"
 			var bad []string
 			for _, o := range c.storageOrigins(st.Val) {
-				if o.Kind != "make" && o.Kind != "const" {
+				if o.Kind != "make" && o.Kind != "const" && o.Kind != "nil" {
 					bad = append(bad, o.Kind+" "+o.Desc)
 				}
 			}
